@@ -16,13 +16,18 @@
   Witnesses (`decide`) for the recorded defects on `Cfg.unchanged` and their absence on
   `Cfg.repaired` where a repair exists.
   Proved since: `find_eq_idxOf` (find = first position, small names).
-  Not proved: the full iterator refinement (`edit_refines`),
+  Proved since: `edit_refines_*` — ONE live iterator refines the plain list + cursor of
+  Hostlist/EditSpec.lean under create / next / remove (repaired D19) / reset / shift / pop (repaired
+  D20) / push while the iterator has something left.
+  Not proved: more than one live iterator (F16-MULTI is false anyway), refinement for the op TEXT
+  level (`pushE` = parser ∘ push_range is C01's), uniq/sort with a live iterator,
   duplicate-freedom after `uniq` (false: F16-UNIQ); these are tied to the plain-list specification
   by the correspondence run only.
 -/
 import PdshVerif.Hostlist.LemmasFind
 import PdshVerif.Hostlist.LemmasUniq
 import PdshVerif.Hostlist.LemmasFindFirst
+import PdshVerif.Hostlist.EditRefine
 
 namespace PdshVerif.C16
 open PdshVerif.Hostlist PdshVerif.Gen
@@ -105,6 +110,61 @@ theorem find_miss_big_suffix :
     (findRanges [HRange.mk' ['n'] 33554430 33554435 8] "n33554433".toList).1 = none ∧
     (findRanges [HRange.mk' ['n'] 33554430 33554435 8] "n33554431".toList).1 = some 1 := by
   decide
+
+/-! ### `edit_refines`: one live iterator refines the plain list with one cursor
+
+  `Ref cfg e p c fresh`: the editable list `e` (range records with identity, iterator of slot 0 with
+  its cached record pointer) stands for the plain list `p` (EditSpec.PL: names + cursor c); `fresh`:
+  the last iterator operation was a `hostlist_next` that handed out a host (the contract of
+  `hostlist_remove`).  Every theorem: the model's answer IS the plain list's answer and `Ref` holds
+  again.  Outside, because FALSE of the code (open findings): a push while the iterator stands at
+  the end (F16-ENDPUSH), delete by name / position under a live iterator
+  (F16-DELETE-UNDER-ITERATOR), several iterators (F16-MULTI). -/
+
+/-- CREATE -/
+theorem edit_refines_new (cfg : Cfg) (e : EL) (hid : e.IdsOk) (hg : e.Good) (hf : ∀ q ∈ e.ranges, q.PrintsFull cfg)
+    (hits : e.its = []) : Ref cfg (itNew e 0) (EditSpec.itNew ⟨e.hosts, []⟩ 0) 0 false :=
+  new_refines cfg e hid hg hf hits
+
+/-- NEXT: the answer of `hostlist_next` is the name under the cursor (or NULL at the end) -/
+theorem edit_refines_next (cfg : Cfg) (e : EL) (p : EditSpec.PL) (c : Nat) (fresh : Bool) (h : Ref cfg e p c fresh) :
+    ∃ a p' e' c', EditSpec.itNext p 0 = some (a, p') ∧ itNext cfg e 0 = .ok (a, e') ∧ Ref cfg e' p' c' a.isSome :=
+  next_refines cfg e p c fresh h
+
+/-- REMOVE (repaired D19), directly after a `hostlist_next` that handed out a host: exactly that
+    list position goes, whether the record shrinks, is split or goes away -/
+theorem edit_refines_remove (cfg : Cfg) (hfix : cfg.fixRemoveDepth = true) (e : EL) (p : EditSpec.PL) (c : Nat)
+    (h : Ref cfg e p c true) (hc1 : 1 ≤ c) :
+    ∃ p' e', EditSpec.itRemove p 0 = some p' ∧ itRemove cfg e 0 = .ok e' ∧ Ref cfg e' p' (c - 1) false :=
+  remove_refines cfg hfix e p c h hc1
+
+/-- RESET -/
+theorem edit_refines_reset (cfg : Cfg) (e : EL) (p : EditSpec.PL) (c : Nat) (fresh : Bool) (h : Ref cfg e p c fresh) :
+    Ref cfg (itReset e 0) (EditSpec.itReset p 0) 0 false :=
+  reset_refines cfg e p c fresh h
+
+/-- SHIFT with the iterator live: the first name is handed out, the iterator keeps what it had left -/
+theorem edit_refines_shift (cfg : Cfg) (hfix : cfg.fixRemoveDepth = true) (e : EL) (p : EditSpec.PL) (c : Nat)
+    (fresh : Bool) (h : Ref cfg e p c fresh) (hf : ∀ r ∈ e.ranges, r.ShiftFits) :
+    ∃ e', shiftE cfg e = .ok ((EditSpec.shift p).1, e') ∧
+      Ref cfg e' (EditSpec.shift p).2 (if p.names = [] then c else c - 1) false :=
+  shift_refines cfg hfix e p c fresh h hf
+
+/-- POP with the iterator live (repaired D20, D19): the last name is handed out; an iterator that
+    stood on it stands at the end afterwards -/
+theorem edit_refines_pop (cfg : Cfg) (hD19 : cfg.fixRemoveDepth = true) (hD20 : cfg.fixPopIter = true) (e : EL)
+    (p : EditSpec.PL) (c : Nat) (fresh : Bool) (h : Ref cfg e p c fresh) (hf : ∀ r ∈ e.ranges, r.ShiftFits) :
+    ∃ e', popE cfg e = .ok ((EditSpec.pop p).1, e') ∧
+      Ref cfg e' (EditSpec.pop p).2
+        (if p.names = [] then c else if c = p.names.length then c - 1 else c) false :=
+  pop_refines cfg hD19 hD20 e p c fresh h hf
+
+/-- PUSH while the iterator has something left (appended or joined to the last record): the
+    iterator will reach the new hosts (D17 repaired so that joined records print in full) -/
+theorem edit_refines_push (cfg : Cfg) (hfs : cfg.fixIterSuffix = true) (e : EL) (p : EditSpec.PL) (c : Nat)
+    (fresh : Bool) (h : Ref cfg e p c fresh) (r : HRange) (hr : r.Good) (hnotend : c < p.names.length) :
+    Ref cfg (pushRangeE e r) { p with names := p.names ++ r.hosts } c false :=
+  push_refines cfg hfs e p c fresh h r hr hnotend
 
 /-! ### iterator scenarios (the recorded defects and their repairs) -/
 /-- run `hostlist_next` n times on iterator k -/
